@@ -29,6 +29,8 @@ Section AlmPanocDir.
   Variables (ls_fuel inner_fuel : nat).
 
   (* one inner solve as the outer loop sees it; the world is (cumulative counters, provider) *)
+  (* ir_stop: ALMSolver::stop() sets ALM's own flag and the inner solver's flag in the same call, so the one oracle stop_req serves both:
+     the outer loop reads its flag after the inner solve, i.e. at the cumulative counters the solve hands on *)
   Definition dinner (w : counters * D) (i : nat) (x y Σ : list T) (tol : T) (errz : list T)
       : option (inner_res (T:=T) * list T * resultD D * (counters * D)) :=
     let r := panocD (o_psi_grad_full Pb prov wm_supplied y Σ) (o_psi_yhat Pb prov y Σ) (o_grad_L Pb prov) (o_grad_psi Pb prov y Σ) Clb Cub l1
@@ -38,10 +40,12 @@ Section AlmPanocDir.
     | DoneD _ oD =>
         let o := od_out D oD in
         Some ({| ir_status := alm_status_of (out_status o); ir_eps := out_eps o; ir_err := Some (out_errz o);
-                 ir_y := Some (out_y o); ir_iters := out_iterations o; ir_oot := outer_oot i |},
+                 ir_y := Some (out_y o); ir_iters := out_iterations o; ir_oot := outer_oot i;
+                 ir_stop := stop_req (cadd (fst w) (out_cnt o)) |},
               out_x o, r, (cadd (fst w) (out_cnt o), od_dir D oD))
     | NotFiniteLD _ L =>
-        Some ({| ir_status := NotFinite; ir_eps := ninf; ir_err := None; ir_y := None; ir_iters := 0; ir_oot := outer_oot i |},
+        Some ({| ir_status := NotFinite; ir_eps := ninf; ir_err := None; ir_y := None; ir_iters := 0; ir_oot := outer_oot i;
+                 ir_stop := stop_req (cadd (fst w) (snd (init_L (o_psi_grad_full Pb prov wm_supplied y Σ) (o_grad_psi Pb prov y Σ) (with_opts PP tol) x))) |},
               x, r, (cadd (fst w) (snd (init_L (o_psi_grad_full Pb prov wm_supplied y Σ) (o_grad_psi Pb prov y Σ) (with_opts PP tol) x)), snd w))
     | OutOfFuelD _ => None
     | ThrewD _ _ => None
